@@ -781,6 +781,28 @@ def returned_values(unit):
     return out
 
 
+def assigned_values(unit, target):
+    """[(value node, facts, statement)] for the assignments to `target` (text); a value that is a local bound several
+    times (a result variable) is replaced by what is assigned to that local, under the facts of both statements."""
+    fm = factmap(unit)
+    out = []
+    for a in own_nodes(unit.node):
+        if not (isinstance(a, ast.Assign) and len(a.targets) == 1 and ast.unparse(a.targets[0]) == target):
+            continue
+        v = a.value
+        if isinstance(v, ast.Name):
+            asg = [b for b in own_nodes(unit.node) if isinstance(b, (ast.Assign, ast.AnnAssign)) and b.value is not None
+                   and any(isinstance(t, ast.Name) and t.id == v.id
+                           for t in (b.targets if isinstance(b, ast.Assign) else [b.target]))]
+            if len(asg) > 1:
+                for b in asg:
+                    seen = {tuple(f) for f in fm.at(b)}
+                    out.append((b.value, tuple(fm.at(b)) + tuple(f for f in fm.at(a) if tuple(f) not in seen), b))
+                continue
+        out.append((v, tuple(fm.at(a)), a))
+    return out
+
+
 def removal_sites(unit, coll):
     """[(call, argument text, facts other than the membership test)] for the removals of an element from the collection
     `coll` (text): `coll.remove(e)`; sa.normalise spells `coll.discard(e)` as `if e in coll: coll.remove(e)`, so the
